@@ -144,6 +144,75 @@
         }
     }
 
+    // ---- C08, property level: on the extension shapes of the subset the loop's contribution IS the extension's declared members
+    pub open spec fn seq_at(e: Node, s: int) -> bool {
+        0 <= s < elem_kids(e).len() && tag(elem_kids(e)[s]) == "sequence"@
+        && forall|j: int| 0 <= j < elem_kids(e).len() && j != s ==> tag(#[trigger] elem_kids(e)[j]) != "sequence"@
+    }
+    pub open spec fn only_attributes(e: Node) -> bool {
+        forall|j: int| 0 <= j < elem_kids(e).len() ==> tag(#[trigger] elem_kids(e)[j]) == "attribute"@ || tag(elem_kids(e)[j]) == "attributeGroup"@
+    }
+    pub proof fn lemma_has_seq(e: Node)
+        ensures has_seq(e) <==> exists|j: int| 0 <= j < elem_kids(e).len() && tag(#[trigger] elem_kids(e)[j]) == "sequence"@
+    {
+        broadcast use {crate::roxmltree::kid_lower, crate::roxmltree::elem_kid_is_kid, crate::roxmltree::kid_elem_is_elem_kid};
+        if has_seq(e) {
+            let i = choose|i: int| 0 <= i < all_kids(e).len() && is_seq_elem(#[trigger] all_kids(e)[i]);
+            assert(elem_kids(e).contains(all_kids(e)[i]));
+            let j = choose|j: int| 0 <= j < elem_kids(e).len() && elem_kids(e)[j] == all_kids(e)[i];
+            assert(tag(elem_kids(e)[j]) == "sequence"@);
+        }
+        if exists|j: int| 0 <= j < elem_kids(e).len() && tag(#[trigger] elem_kids(e)[j]) == "sequence"@ {
+            let j = choose|j: int| 0 <= j < elem_kids(e).len() && tag(#[trigger] elem_kids(e)[j]) == "sequence"@;
+            assert(all_kids(e).contains(elem_kids(e)[j]));
+            let i = choose|i: int| 0 <= i < all_kids(e).len() && all_kids(e)[i] == elem_kids(e)[j];
+            assert(is_elem(elem_kids(e)[j]));
+            assert(is_seq_elem(all_kids(e)[i]));
+        }
+    }
+    pub proof fn lemma_ext_own_with_sequence(e: Node, s: int, k: nat)
+        requires seq_at(e, s), k <= elem_kids(e).len()
+        ensures ext_own(e, k) =~= (if k <= s { Seq::<Node>::empty() } else { members(e) })
+        decreases k
+    {
+        reveal_strlit("sequence"); reveal_strlit("attribute");
+        lemma_has_seq(e);
+        if k > 0 {
+            lemma_ext_own_with_sequence(e, s, (k - 1) as nat);
+            assert(has_seq(e));
+            if k - 1 != s { assert(tag(elem_kids(e)[k - 1]) != "sequence"@); }
+        }
+    }
+    pub proof fn lemma_ext_own_attributes_only(e: Node, k: nat)
+        requires only_attributes(e), k <= elem_kids(e).len()
+        ensures ext_own(e, k) =~= flat(e, k)
+        decreases k
+    {
+        broadcast use crate::roxmltree::kid_lower;
+        reveal_strlit("sequence"); reveal_strlit("attribute"); reveal_strlit("attributeGroup"); reveal_strlit("choice");
+        lemma_has_seq(e);
+        if k > 0 {
+            lemma_ext_own_attributes_only(e, (k - 1) as nat);
+            let c = elem_kids(e)[k - 1];
+            assert(tag(c) == "attribute"@ || tag(c) == "attributeGroup"@);
+            assert(!has_seq(e)) by {
+                if has_seq(e) { let j = choose|j: int| 0 <= j < elem_kids(e).len() && tag(#[trigger] elem_kids(e)[j]) == "sequence"@; assert(tag(elem_kids(e)[j]) == "attribute"@ || tag(elem_kids(e)[j]) == "attributeGroup"@); }
+            }
+        }
+    }
+    // the extension shapes of the subset: one sequence (with anything beside it), or attributes only
+    pub open spec fn ext_simple(e: Node) -> bool { (exists|s: int| seq_at(e, s)) || only_attributes(e) }
+    pub proof fn lemma_ext_own_is_members(e: Node)
+        requires ext_simple(e)
+        ensures ext_own(e, elem_kids(e).len()) =~= members(e)
+    {
+        if exists|s: int| seq_at(e, s) {
+            let s = choose|s: int| seq_at(e, s);
+            lemma_ext_own_with_sequence(e, s, elem_kids(e).len());
+        } else {
+            lemma_ext_own_attributes_only(e, elem_kids(e).len());
+        }
+    }
     pub open spec fn no_seq_kid(n: Node) -> bool { forall|i: int| 0 <= i < elem_kids(n).len() ==> tag(#[trigger] elem_kids(n)[i]) != "sequence"@ }
     // contribution of `sequence` children placed directly under complexContent (outside the XSD grammar; proof artifact of the loop)
     pub open spec fn cc_own<'a, 'b>(n: Node<'a, 'b>, k: nat) -> Seq<Node<'a, 'b>>
@@ -167,6 +236,8 @@
             &&& (no_ext(cc) ==> fs.len() == 0)
             &&& (forall|e: Node| first_ext(cc, e) ==> base_fields_of(d, cc, e) is Some
                     && appended(base_fields_of(d, cc, e)->0, fs, ext_own(e, elem_kids(e).len())))
+            // the property's wording, on the extension shapes of the subset: base members first, then the members the extension declares
+            &&& (forall|e: Node| first_ext(cc, e) && ext_simple(e) ==> appended(base_fields_of(d, cc, e)->0, fs, members(e)))
         }
     }
 
